@@ -3,4 +3,8 @@ from contracts.C03_container_validate import ContainerValidate
 from contracts.C03_series_validate import SeriesSchemaValidate
 from contracts.C05_component_restore import ColumnValidateRestoresSchema
 
-CONTRACTS = [ContainerValidate, SeriesSchemaValidate, ColumnValidateRestoresSchema]
+from contracts.C04_polars_column_validate import PolarsColumnValidate  # noqa: F401  (own file: C04_polars_column_validate.py)
+
+from contracts.C05_multiindex_validate import MultiIndexValidate
+
+CONTRACTS = [ContainerValidate, SeriesSchemaValidate, ColumnValidateRestoresSchema, MultiIndexValidate]
